@@ -798,7 +798,9 @@ impl Arena {
     let mut allocated = header.allocated.load(Ordering::Acquire);
 
     loop {
-      let want = allocated + size;
+      let Some(want) = allocated.checked_add(size) else {
+        break;
+      };
       if want > self.cap {
         break;
       }
@@ -947,9 +949,14 @@ impl Arena {
     let want = loop {
       let aligned_offset = align_offset::<T>(allocated);
       let size = mem::size_of::<T>() as u32;
-      let want = aligned_offset + size + extra;
+      let Some(want) = aligned_offset
+        .checked_add(size)
+        .and_then(|want| want.checked_add(extra))
+      else {
+        break size.saturating_add(extra);
+      };
       if want > self.cap {
-        break size + extra;
+        break size.saturating_add(extra);
       }
 
       match header.allocated.compare_exchange_weak(
@@ -984,7 +991,7 @@ impl Arena {
           });
         }
         Freelist::Optimistic => {
-          match self.alloc_slow_path_optimistic(Self::pad::<T>() as u32 + extra) {
+          match self.alloc_slow_path_optimistic((Self::pad::<T>() as u32).saturating_add(extra)) {
             Ok(mut bytes) => {
               bytes.align_bytes_to::<T>();
               return Ok(Some(bytes));
@@ -997,7 +1004,7 @@ impl Arena {
           }
         }
         Freelist::Pessimistic => {
-          match self.alloc_slow_path_pessimistic(Self::pad::<T>() as u32 + extra) {
+          match self.alloc_slow_path_pessimistic((Self::pad::<T>() as u32).saturating_add(extra)) {
             Ok(mut bytes) => {
               bytes.align_bytes_to::<T>();
               return Ok(Some(bytes));
